@@ -202,11 +202,46 @@ def run(ctx):
                 i = S('i', type='int')
                 v, f = e2.call_function(q, [mk(), i])
                 ser = T.ser(i, T.const(4), BIG)
+                regions = (('negative', T.lt(i, T.const(0))), ('2^32 or more', T.not_(T.lt(i, T.const(2 ** 32)))))
+
+                from ..evalr import Frame
+
+                def every_alternative_has_ser(t, known, _depth=0):
+                    # case distinctions (at the top or inside the value, e.g. `signed = n < 0`) are settled by what is known
+                    # about the index (interval domain); where they are not, the unsigned conversion must be in both cases
+                    if T.tag(t) == 'raise':
+                        return True
+                    phis = [t] if T.tag(t) == 'phi' else [x for x in T.walk(t) if T.tag(x) == 'phi']
+                    if not phis or _depth > 12:
+                        return not phis and T.contains(t, lambda y: y == ser)
+                    c = phis[0][1]
+                    d = e2.decide(c, Frame(None, {}, Facts(sorted(known, key=repr)), None, None, 0))
+                    if d == T.TRUE:
+                        return every_alternative_has_ser(T.assume(t, known | {c}), known | {c}, _depth + 1)
+                    if d == T.FALSE:
+                        return every_alternative_has_ser(T.assume(t, known | {T.not_(c)}), known | {T.not_(c)}, _depth + 1)
+                    return every_alternative_has_ser(T.assume(t, known | {c}), known | {c}, _depth + 1) and \
+                        every_alternative_has_ser(T.assume(t, known | {T.not_(c)}), known | {T.not_(c)}, _depth + 1)
                 for cs, leaf in normal_leaves(v):
                     ok = T.tag(leaf) == 'obj' and T.contains(T.obj_fields(leaf)['chain_code'], lambda y: y == ser) \
                         and T.contains(T.obj_fields(leaf)['key'], lambda y: y == ser)
                     ob.require(ok, 'a child is produced without serialising the index as ser32(i) (which refuses values '
                                    'outside 0..2^32-1)', fi.where, expected='key and chain code depend on SER(i, 4, big)')
+                    if not ok:
+                        continue
+                    # ... and that conversion is the one used for out-of-range values too: under the assumption that the index is
+                    # negative (or 2^32 or more) every alternative of the child's fields still goes through the refusing form
+                    known = set(cs)
+                    for name, fact in regions:
+                        if T.not_(fact) in known:
+                            continue            # an explicit guard already excludes the region on this exit
+                        for fld in ('chain_code', 'key'):
+                            t = T.assume(T.obj_fields(leaf)[fld], known | {fact})
+                            ob.require(every_alternative_has_ser(t, known | {fact}),
+                                       'for an index that is %s the %s of the child does not go through ser32(i) (the conversion '
+                                       'that refuses values outside 0..2^32-1): such an index yields a child instead of an error'
+                                       % (name, fld), fi.where, expected='SER(i, 4, big) in every alternative',
+                                       found=T.show(t, maxdepth=6))
     # ---------------------------------------------------------------- by_path and the derive_path fold
     check_bypath(ctx, 'C17.BYPATH')
     check_fold(ctx, 'C17.FOLD')
